@@ -385,7 +385,9 @@ class CxxParser:
         else:
             raise CxxParseError("incomplete #include directive", tok)
 
-    def _process_pragma_directive(self, _: LexToken, doxygen: typing.Optional[str]):
+    def _process_pragma_directive(
+        self, ptok: LexToken, doxygen: typing.Optional[str]
+    ):
         # consume all tokens until the end of the line
         # -- but if we find a paren, get the group
         tokens: LexTokenList = []
@@ -398,6 +400,7 @@ class CxxParser:
             else:
                 tokens.append(tok)
 
+        self.state.location = ptok.location
         self.visitor.on_pragma(self.state, self._create_value(tokens))
 
     #
@@ -462,6 +465,7 @@ class CxxParser:
 
         if ns_alias:
             alias = NamespaceAlias(ns_alias.value, names)
+            state.location = location
             self.visitor.on_namespace_alias(state, alias)
             return
 
@@ -495,6 +499,7 @@ class CxxParser:
                 self.lex.return_token(etok)
             else:
                 # must be an extern template instantitation
+                state.location = tok.location
                 self._parse_template_instantiation(doxygen, True)
                 return
 
@@ -626,6 +631,7 @@ class CxxParser:
 
     def _parse_template(self, tok: LexToken, doxygen: typing.Optional[str]) -> None:
         if not self.lex.token_peek_if("<"):
+            self.state.location = tok.location
             self._parse_template_instantiation(doxygen, False)
             return
 
@@ -785,6 +791,7 @@ class CxxParser:
         if isinstance(state, ClassBlockState):
             raise CxxParseError("concept cannot be defined in a class")
 
+        state.location = tok.location
         self.visitor.on_concept(
             state,
             Concept(
@@ -2778,6 +2785,7 @@ class CxxParser:
         if tok:
             self._consume_gcc_attribute(tok)
 
+        location = self.lex.current_location()
         if not is_typedef and self.lex.token_if(";"):
             # if parent scope is a class, add the anonymous
             # union or struct to the parent fields
@@ -2795,6 +2803,7 @@ class CxxParser:
                         type=Type(name),
                         access=access,
                     )
+                    class_state.location = location
                     self.visitor.on_class_field(class_state, f)
             return
 
